@@ -20,6 +20,7 @@ def plan(tier, seed):
         (corner("real", prefix=A.GR, name="real-samebasis"), A.timing(l="r", basis_l="ground-rydberg"), 3),
         (corner("awk", prefix=A.DG, name="awk-dmm-first"), A.timing(l="r", basis_l="ground-rydberg", dmm=True), 2),
         (corner("mixed", prefix=A.LL, name="mixed-two-locals"), A.two_locals(), 3),
+        (corner("unit8", prefix=A.GL, name="unit8-fall-tail"), A.fall_tail(rise=60), 4),
     ]
     if tier == "thorough":
         worlds = [(w, a, d + 1) for w, a, d in worlds]
